@@ -553,6 +553,36 @@ func checkScannerNotAbandoned(c *Ctx, r *Rec, info *types.Info, st *scanTables, 
 		}
 		return true
 	})
+	if start == nil {
+		// the scanner may be started by a helper of the parser that ParseSource calls
+		inspectNoLit(entry.Body, func(x ast.Node) bool {
+			call, ok := x.(*ast.CallExpr)
+			if !ok || start != nil {
+				return true
+			}
+			cf := calleeOf(info, call)
+			if cf == nil || cf.Exported() {
+				return true
+			}
+			if hd := c.declOf(cf); hd != nil && hd.Body != nil {
+				ast.Inspect(hd.Body, func(y ast.Node) bool {
+					if hc, ok := y.(*ast.CallExpr); ok {
+						if rx, mname, _, ok := methodCall(hc); ok && mname == "Make" {
+							if n := derefNamed(info.Types[rx].Type); n != nil && (n.Origin() == st.cls.Origin() || n.Obj().Name() == "ScannerClassLike") {
+								start = call
+							}
+						}
+					}
+					return true
+				})
+			}
+			return true
+		})
+	}
+	if start == nil {
+		r.skip("D5-deferred-drain", construct, c.pos(entry.Pos()), "the call that starts the scanner is not in ParseSource or in a helper it calls directly")
+		return
+	}
 	var deferStmt *ast.DeferStmt
 	for _, s := range entry.Body.List {
 		if d, ok := s.(*ast.DeferStmt); ok {
@@ -764,12 +794,51 @@ func checkFreshParseState(c *Ctx, r *Rec, rule string, parser *types.Named) {
 	}
 	fw := c.fieldWrites()
 	g := newFG(info, entry.Body)
+	isParserMethod := func(call *ast.CallExpr) *ast.FuncDecl {
+		if cf := calleeOf(info, call); cf != nil && recvNamed(cf) != nil && recvNamed(cf).Origin() == parser.Origin() {
+			return c.declOf(cf)
+		}
+		return nil
+	}
+	// an initialising helper: an unexported method that assigns fields of the parser in its own
+	// top-level statements before it calls any other method of the parser
+	initialises := func(hd *ast.FuncDecl) map[*types.Var]bool {
+		out := map[*types.Var]bool{}
+		if hd == nil || hd.Body == nil || hd.Name.IsExported() {
+			return out
+		}
+		for _, st := range hd.Body.List {
+			stop := false
+			inspectNoLit(st, func(x ast.Node) bool {
+				if call, ok := x.(*ast.CallExpr); ok && isParserMethod(call) != nil {
+					stop = true
+				}
+				return true
+			})
+			if stop {
+				break
+			}
+			if as, ok := st.(*ast.AssignStmt); ok {
+				for _, l := range as.Lhs {
+					if f := selectorField(info, l); f != nil {
+						out[f] = true
+					}
+				}
+			}
+		}
+		return out
+	}
 	var firstCall ast.Node
+	initCalls := map[*ast.CallExpr]map[*types.Var]bool{}
 	inspectNoLit(entry.Body, func(x ast.Node) bool {
 		if call, ok := x.(*ast.CallExpr); ok && firstCall == nil {
-			if cf := calleeOf(info, call); cf != nil && recvNamed(cf) != nil && recvNamed(cf).Origin() == parser.Origin() && c.declOf(cf) != nil {
+			if hd := isParserMethod(call); hd != nil {
 				if _, isDefer := pathParentDefer(entry.Body, call); !isDefer {
-					firstCall = call
+					if fs := initialises(hd); len(fs) > 0 {
+						initCalls[call] = fs
+					} else {
+						firstCall = call
+					}
 				}
 			}
 		}
@@ -795,6 +864,9 @@ func checkFreshParseState(c *Ctx, r *Rec, rule string, parser *types.Named) {
 						assigns = append(assigns, as)
 					}
 				}
+			}
+			if call, ok := x.(*ast.CallExpr); ok && initCalls[call][f] {
+				assigns = append(assigns, call)
 			}
 			return true
 		})
